@@ -830,9 +830,69 @@ fn gen_any_key(rng: &mut Rng) -> Value {
     }
 }
 
+/// The parsers' vocabulary as the source has it NOW: the string literals of the match arms of
+/// `impl FromStr for KeyName` and `impl FromStr for Key` in $VERIF_REPO/src/keys.rs (default /repo).
+/// (translate/c18keys.py reads the same arms for the Coq side and fails loudly on a shape it does not
+/// understand; here a file that cannot be read just means no extra cases.)
+fn source_vocabulary() -> (Vec<String>, Vec<String>) {
+    let repo = std::env::var("VERIF_REPO").unwrap_or_else(|_| "/repo".to_string());
+    let src = std::fs::read_to_string(format!("{}/src/keys.rs", repo)).unwrap_or_default();
+    let arms = |header: &str| -> Vec<String> {
+        let mut out = vec![];
+        if let Some(i) = src.find(header) {
+            let body = &src[i..];
+            // up to the end of the impl block: the next line that is exactly "}"
+            let end = body.find("\n}\n").unwrap_or(body.len());
+            for line in body[..end].lines() {
+                let t = line.trim();
+                if let Some(rest) = t.strip_prefix('"') {
+                    if let Some(q) = rest.find('"') {
+                        if rest[q + 1..].trim_start().starts_with("=>") {
+                            out.push(rest[..q].to_string());
+                        }
+                    }
+                }
+            }
+        }
+        out
+    };
+    (arms("impl FromStr for KeyName"), arms("impl FromStr for Key {"))
+}
+
+fn capitalized(s: &str) -> String {
+    let mut c = s.chars();
+    match c.next() {
+        Some(f) => f.to_uppercase().collect::<String>() + c.as_str(),
+        None => String::new(),
+    }
+}
+
 pub fn generate(rng: &mut Rng, n: usize, tier: &str) -> Vec<Value> {
     let _ = tier;
     let mut v = vec![];
+    // the vocabulary of the source as it is now: every name literal in the case variants the parser folds,
+    // alone, with modifiers, and inside chords; every modifier literal likewise.  Judged by
+    // parse(print(parse s)) = parse s on the real crate.
+    let (names, mods) = source_vocabulary();
+    for lit in names.iter() {
+        for spelled in [lit.clone(), lit.to_uppercase(), capitalized(lit)] {
+            v.push(json!({"kind": "parse", "what": "name", "s": spelled}));
+            v.push(json!({"kind": "parse", "what": "key", "s": spelled}));
+            v.push(json!({"kind": "parse", "what": "key", "s": format!("ctrl+{}", spelled)}));
+            v.push(json!({"kind": "parse", "what": "key", "s": format!("Alt+shift+{}", spelled)}));
+            v.push(json!({"kind": "parse", "what": "chord", "s": format!("ctrl+x {}", spelled)}));
+            v.push(json!({"kind": "parse", "what": "chord", "s": format!("{} alt+{}", spelled, spelled)}));
+        }
+    }
+    for m in mods.iter() {
+        for spelled in [m.clone(), m.to_uppercase(), capitalized(m)] {
+            v.push(json!({"kind": "parse", "what": "key", "s": format!("{}+a", spelled)}));
+            v.push(json!({"kind": "parse", "what": "chord", "s": format!("{}+f1 {}+ctrl+up", spelled, spelled)}));
+            for lit in names.iter().take(3) {
+                v.push(json!({"kind": "parse", "what": "key", "s": format!("{}+{}", spelled, lit)}));
+            }
+        }
+    }
     // fixed part: every literal name and modifier through every parser, every plain character
     for lit in NAME_LITS.iter() {
         for what in ["name", "key", "chord"] {
